@@ -32,7 +32,14 @@ int pam_set_item(pam_handle_t *pamh, int item_type, const void *item) {
 const char *pam_strerror(pam_handle_t *pamh, int errnum) { (void)pamh; (void)errnum; return "pam error"; }
 void pam_vsyslog(const pam_handle_t *pamh, int priority, const char *fmt, va_list args) {
   (void)pamh; (void)priority;
-  if (getenv("PAMDRV_LOG")) { vfprintf(stderr, fmt, args); fputc('\n', stderr); }
+  /* always format the message, as the real pam_vsyslog does: a %s argument that is not
+     NUL-terminated inside its object is then seen by the sanitizer */
+  char *msg = malloc(8192);
+  if (msg) {
+    vsnprintf(msg, 8192, fmt, args);
+    if (getenv("PAMDRV_LOG")) { fputs(msg, stderr); fputc('\n', stderr); }
+    free(msg);
+  }
 }
 int pam_prompt(pam_handle_t *pamh, int style, char **response, const char *fmt, ...) {
   (void)style; (void)fmt;
